@@ -338,6 +338,23 @@ func judge(c Case, w *vkit.W) (interesting bool) {
 
 var types = []string{"date", "roman", "sem", "size", "uu"}
 
+// boundaryTexts join the stateless pool (they are not assumed valid): numeric fields at and just beyond what the value types
+// hold, where a hand-written conversion for one input type may part from the other's.
+var boundaryTexts = func() map[string][]string {
+	nums := []string{"18446744073709551614", "18446744073709551615", "18446744073709551616", "18446744073709551617", "18446744073709551618", "18446744073709551619", "18446744073709551620", "18446744073709551625",
+		"20000000000000000000", "30000000000000000000", "99999999999999999999", "100000000000000000000", "184467440737095516150", "36893488147419103232", "9223372036854775808", "4294967296", "00", "01"}
+	m := map[string][]string{}
+	for _, n := range nums {
+		m["sem"] = append(m["sem"], n+".0.0", "0."+n+".0", "v0.0."+n, "1.2.3-"+n, "1.2.3-0"+n, "1.2.3+"+n)
+		m["size"] = append(m["size"], n, n+"B", n+" kB", `"`+n+`"`, `{"value":`+n+`,"unit":"B"}`, "0"+n)
+	}
+	m["size"] = append(m["size"], "18014398509481984 KiB", "18014398509481983 KiB", "18446744073709552 kB", "18446744073709551 kB", "16 EiB", "15 EiB", "18 EB", "19 EB")
+	m["date"] = []string{"999999999-12-31", "1000000000-01-01", "2147483647-01-01", "2147483648-01-01", "4294967296-01-01", "99999999991231", "9999999991231", "0000-01-01", "00000101", "0000-00-00", "2023-02-29", "2024-02-30", "2024-13-01"}
+	m["roman"] = []string{strings.Repeat("M", 120) + "DCCCLXXXVIII", strings.Repeat("M", 128), strings.Repeat("M", 129), strings.Repeat("m", 127) + "i", "MMMMCMXCIX", "IIII", "VIIII", "CMXCIX"}
+	m["uu"] = []string{"ffffffff-ffff-ffff-ffff-ffffffffffff", "FFFFFFFF-FFFF-FFFF-FFFF-FFFFFFFFFFFF", "urn:uuid:ffffffff-ffff-ffff-ffff-ffffffffffff", "00000000-0000-0000-0000-000000000000", "80000000-0000-0000-8000-000000000000", "7fffffff-ffff-ffff-7fff-ffffffffffff"}
+	return m
+}()
+
 var validTexts = map[string][]string{
 	"date":  {"2022-08-07", "20220807", "0001-01-01", "9999-12-31", "2024-02-29", "1999-12-31", "2000-01-01"},
 	"roman": {"I", "IV", "MCMXCIV", "mdclxvi", "XLII", "CCCC", "ix", ""},
@@ -493,6 +510,7 @@ func TestCheck(t *testing.T) {
 	r.Phase("stateless: pool of valid/mutated texts x rules x 4 input types (all pairs for the two-argument helpers)", func() {
 		for _, typ := range types {
 			pool := append([]string{}, validTexts[typ]...)
+			pool = append(pool, boundaryTexts[typ]...)
 			g := r.Rng("pool-"+typ, 0)
 			for _, v := range validTexts[typ] {
 				for k := 0; k < r.Pick(30, 300); k++ {
